@@ -21,6 +21,8 @@ type Violation struct {
 	Trace    []string `json:"trace,omitempty"`
 	Cost     int      `json:"cost"` // preemptions+deviations (A) or depth (B)
 	Count    int      `json:"count"`
+	Shard    int      `json:"shard"` // worker that found it (input enumerations are replayed with the same sharding)
+	NShards  int      `json:"nshards"`
 }
 
 // ExecOutcome is what a harness body reports for one complete execution.
